@@ -85,6 +85,15 @@ def run_bare(case, rng):
                 dec.add(sub, name=f"again{i}")   # the same subordinate again: refused, and nothing may change
             except ValueError:
                 pass
+        if rng.random() < 0.12:
+            # another interface object carrying the same memory map (a second port onto the same peripheral) is
+            # offered to the same decoder: refused - the map is already a window - and nothing may change
+            twin = csr.Interface(addr_width=k, data_width=dw, path=(f"twin{i}",))
+            twin.memory_map = sub.memory_map
+            try:
+                dec.add(twin, name=f"twin{i}")
+            except ValueError:
+                rejected.append(twin)
         if case.get("elaborate_between_adds") and rng.random() < 0.3:
             from amaranth.hdl import Fragment
             Fragment.get(dec, None)   # bring-up elaboration of a partly populated decoder; more windows follow
